@@ -544,3 +544,89 @@ def check_flags_initialised(ck, P, rid):
             else:
                 ck.holds(rid, inst, c.where, "flags/raw_flags written on every path between allocation and publication", cfg)
     ck.expect(rid, n, 5, "allocation sites of messages")
+
+
+def check_rmw_tag_discipline(ck, P, rid):
+    """In send_anti_messages the receiver-undo RMW may only be applied to an entry tested fully untagged (both tag bits
+    clear: it is then a real message pointer), the sender-cancel RMW only to an entry tested local-sent, and the remote
+    cancellation only to an entry tested remote-sent.  Otherwise a tagged pointer is dereferenced."""
+    cfg = P.config
+    f = P.fn("send_anti_messages")
+    rm = flag_rmws(f, P)
+    targets = []
+    for a, eff, base in rm:
+        if eff == "-PROCESSED":
+            targets.append((a, "undo", {"untagged"}))
+        elif eff == "+ANTI":
+            targets.append((a, "cancel-local", {"local"}))
+    for c in f.calls("mpi_remote_anti_msg_send"):
+        targets.append((c, "cancel-remote", {"remote"}))
+    targets = [(f, n, r, nd) for (n, r, nd) in targets]
+    # the coast forward re-dispatches history entries: only untagged ones are events
+    se = P.fn("silent_execution")
+    for c in se.walk():
+        if c.k == "CallExpr" and not c.callee and X.show(c.children[0]) == "global_config.dispatcher":
+            targets.append((se, c, "redispatch", {"untagged"}))
+    for f, node, role, need in targets:
+        inst = "tag:%s@%s" % (role, f.name)
+        from .rules_index import ordered_paths
+        paths, complete = ordered_paths(f, node)
+        bad = None
+        for seq in paths:
+            m1 = m2 = m3 = None     # truth of the last test of (ptr & 1), (ptr & 2), (ptr & 3) since the pointer was last assigned
+            infeasible = False
+            for ev in seq:
+                if ev[0] == "e":
+                    n0 = ev[1]
+                    if (n0.k == "BinaryOperator" and n0.op == "=" and X.strip(n0.children[0]).k == "DeclRefExpr" and X.strip(n0.children[0]).d.get("tp")) or \
+                            (n0.k == "VarDecl" and n0.d.get("tp")):
+                        # a new entry is loaded (or the tag stripped): earlier tests no longer describe the variable's value,
+                        # except that stripping a tested tag yields an untagged pointer
+                        rhs = n0.children[1] if n0.k == "BinaryOperator" else (n0.children[0] if n0.children else None)
+                        stripped = rhs is not None and any(mm in ("unmark_msg", "unmark_msg_sent", "unmark_msg_remote") for x in rhs.walk() for mm in x.macros)
+                        if stripped:
+                            keep = (m1, m2, m3)
+                        else:
+                            m1 = m2 = m3 = None
+                    continue
+                core, t = ev[1], ev[2]
+                tt = None
+                cc = X.strip(core)
+                if cc.k == "BinaryOperator" and cc.op == "&" and X.const_int(cc.children[1]) in (1, 2, 3):
+                    rv = typestate.root_var(cc.children[0])
+                    if rv is not None and rv.d.get("tp"):
+                        tt = X.const_int(cc.children[1])
+                # the same bits tested twice with different outcomes and no assignment in between: not a real path
+                prev = {1: m1, 2: m2, 3: m3}.get(tt)
+                if tt is not None and prev is not None and prev != t:
+                    infeasible = True
+                if tt == 3 and t is False and (m1 or m2):
+                    infeasible = True
+                if tt in (1, 2) and t and m3 is False:
+                    infeasible = True
+                if tt == 1:
+                    m1 = t
+                elif tt == 2:
+                    m2 = t
+                elif tt == 3:
+                    m3 = t
+            if infeasible:
+                continue
+            if "untagged" in need:
+                ok = (m3 is False) or (m1 is False and m2 is False)
+                why = "an entry that may still carry a tag (a sent message) is treated as a processed event here: a tagged pointer is dereferenced and a message the LP merely SENT is undone / re-executed as if it had been received"
+            elif "local" in need:
+                ok = (m2 is False and (m3 is True or m1 is True)) or (m1 is True and m2 is not True)
+                why = "the local cancellation can be applied to an entry not tested local-sent"
+            else:
+                ok = m2 is True
+                why = "the remote cancellation can be applied to an entry not tested remote-sent"
+            if not ok:
+                bad = why + " (tests on the path: &1=%s &2=%s &3=%s)" % (m1, m2, m3)
+        if bad:
+            ck.violated(rid, inst, node.where, bad, cfg)
+        elif paths:
+            ck.holds(rid, inst, node.where, "reached only after the entry's tag bits were tested accordingly (%d paths)" % len(paths), cfg)
+        else:
+            ck.inconclusive(rid, inst, node.where, "no path", cfg)
+    ck.expect(rid, len(targets), 4, "tag-sensitive operations on history entries")
